@@ -94,24 +94,55 @@ def check(F, run, tier):
         run.add(bad("R-INDEX", inst, "VolFile.cpp", VOL, "after opening: count <= names and count <= whole index entries read (unused trailing slots and a ragged index length are tolerated safely)", "derived: " + "; ".join(txt)))
     # unused trailing slots: counting stops at the first entry whose filenameOffset is 0xFFFFFFFF, and the refusal compares the count of used slots
     cv = F.fn(VOL + "::CountValidEntries", nparams=0)
-    brk = [nd for nd in cv.nodes if nd["k"] == "BreakStmt"]
     from ..rules_sib import enclosing_if_cond
+    from ..facts import NEGATED_CMP
+    from ..rules_stream import is_store
+    loops = [nd for nd in cv.nodes if nd["k"] in ("ForStmt", "WhileStmt")]
     good = False
-    if len(brk) == 1:
-        cid, in_then = enclosing_if_cond(cv, brk[0]["id"])
-        t = cv.term(cid) if cid is not None else None
-        good = t is not None and t[0] == "op" and t[1] == "==" and "filenameOffset" in repr(t) and ("const", 0xffffffff) in (t[2], t[3])
+    counter = None
+    if len(loops) == 1:
+        lp = loops[0]
+        body = set(cv.subtree(lp["id"]))
+        # the counter is the local the loop increments
+        incs = [cv.term(cv.kids(x)[0]) for x in body if cv.n(x)["k"] == "UnaryOperator" and cv.n(x).get("op") in ("++",)]
+        incs = [t for t in incs if t[0] == "var"]
+        counter = incs[0] if len(set(incs)) == 1 else None
+
+        def conjuncts(t):
+            if t[0] == "op" and t[1] == "&&":
+                return conjuncts(t[2]) + conjuncts(t[3])
+            return [t]
+        # conditions under which counting continues: the loop condition's conjuncts and the negations of the break guards
+        cont = conjuncts(cv.term(lp["cond"])) if "cond" in lp else []
+        for x in body:
+            if cv.n(x)["k"] == "BreakStmt":
+                cid, in_then = enclosing_if_cond(cv, x)
+                t = cv.term(cid) if cid is not None else None
+                if t is not None and t[0] == "op" and t[1] in NEGATED_CMP and in_then:
+                    cont.append(("op", NEGATED_CMP[t[1]], t[2], t[3]))
+                else:
+                    cont.append(("?",))
+        if counter is not None:
+            entry_off = ("mem", ("idx", ("mem", ("this",), "m_IndexEntries"), counter), "filenameOffset")
+            want = {("op", "<", counter, ("mem", ("this",), "m_IndexEntryCount")), ("op", "!=", entry_off, ("const", 0xffffffff))}
+            norm = set()
+            for t in cont:
+                if t[0] == "op" and t[1] == "!=" and t[2][0] == "const":
+                    t = ("op", "!=", t[3], t[2])
+                norm.add(t)
+            good = norm == want
     eng = Engine(F, S)
     eng.analyze(cv, frozenset())
     ref = [nd for nd in cv.nodes if nd["k"] == "CXXThrowExpr"]
     used = False
-    if ref:
+    if ref and counter is not None:
         cid, _ = enclosing_if_cond(cv, ref[0]["id"])
         t = cv.term(cid) if cid is not None else None
-        used = t is not None and "packedFileCount" in repr(t) and "m_StringTable" in repr(t) and "m_IndexEntryCount" not in repr(t)
+        from ..flow import mentions
+        used = t is not None and mentions(t, counter) and "m_StringTable" in repr(t) and "m_IndexEntryCount" not in repr(t)
     inst = VOL + "::CountValidEntries#unused-slots"
     if good and (used or not ref):
-        run.add(ok("R-SEQ", inst, cv.loc(cv.body), cv.qn, "entries are counted up to the first unused slot (filenameOffset 0xFFFFFFFF); only used slots must have names", "break on 0xFFFFFFFF; refusal compares the used-slot count"))
+        run.add(ok("R-SEQ", inst, cv.loc(cv.body), cv.qn, "entries are counted up to the first unused slot (filenameOffset 0xFFFFFFFF); only used slots must have names", "counting continues exactly while index < entry count and filenameOffset != 0xFFFFFFFF; refusal compares the used-slot count"))
     else:
         run.add(bad("R-SEQ", inst, cv.loc(cv.body), cv.qn, "entries are counted up to the first unused slot (filenameOffset 0xFFFFFFFF); only used slots must have names",
                     "stop condition recognised: %s; refusal on the used-slot count: %s" % (good, used)))
